@@ -136,7 +136,7 @@ def compare(case, obs, mod):
     f = case_fields(case)
     diffs = []
     srv = dict(x.split(":", 1) if ":" in x else (x[:2], x[2:]) for x in obs["srv"].split("|"))
-    pairs = [("cfg", obs["cfg"], mod["cfg"]), ("v", obs["v"], mod["v"]), ("cbn", obs["cb"].split(":")[0], mod["cbn"]),
+    pairs = [("cfg", obs["cfg"][:-1] + "0" if obs["cfg"].endswith("/-") else obs["cfg"], mod["cfg"]), ("v", obs["v"], mod["v"]), ("cbn", obs["cb"].split(":")[0], mod["cbn"]),
              ("ts", obs["ts"], mod["ts"]), ("sec", obs["sec"], mod["sec"]), ("nd", obs["nd"], mod["nd"]),
              ("t", srv.get("t", "?"), mod["t"])]
     for name, a, b in pairs:
@@ -427,7 +427,12 @@ def replay(path):
     try:
         mexe = vlib.build_ocaml_model("C08")
     except vlib.BuildError:
-        mexe = None
+        # no extracted model for this source tree yet: run the translator + extraction for it
+        try:
+            vlib.coq_property("C08")
+            mexe = vlib.build_ocaml_model("C08")
+        except vlib.BuildError:
+            mexe = None
     (case, line, obs, ml, mod), = run_cases(exe, mexe, [case])
     bad, func, allowed = oracle(case, obs)
     print("cell      : %s" % case)
